@@ -349,10 +349,11 @@ func c03Run(in c03In) (obs c03Obs) {
 		if obs.BCount > 1 {
 			continue
 		}
-		parts := strings.SplitN(s.Line, " ", 3)
-		if len(parts) == 3 {
-			obs.BMethod, obs.BTarget = parts[0], parts[1]
-			obs.BParsed = c03ParseTarget(parts[1])
+		// method SP request-target SP version; the target is whatever lies between the
+		// first and the last space (a sender may have left a raw space inside it)
+		if a, z := strings.IndexByte(s.Line, ' '), strings.LastIndexByte(s.Line, ' '); a >= 0 && z > a {
+			obs.BMethod, obs.BTarget = s.Line[:a], s.Line[a+1:z]
+			obs.BParsed = c03ParseTarget(obs.BTarget)
 		}
 		var rest [][2]string
 		for _, kv := range s.Headers {
@@ -375,8 +376,11 @@ func c03Run(in c03In) (obs c03Obs) {
 
 var c03Methods = []string{"GET", "GET", "POST", "POST", "PUT", "DELETE", "PATCH", "OPTIONS", "PROPFIND", "FOO"}
 
-var c03Segs = []string{"a", "b", "api", "v1", "x.y", "a%2Fb", "q%3Fr", "p%25q", "sp%20ace", "%41bc", "caf%C3%A9", "a+b",
-	"semi;colon", "", ".", "..", "a%23frag", "eq=ual", "am&p", "at@", "co:lon", "%7Euser", "~user", "a%2fb", "%E4%B8%AD"}
+var c03Segs = []string{"a", "b", "api", "v1", "x.y", "a%2Fb", "sp%20ace", "%41bc", "caf%C3%A9", "a+b", "users", "42",
+	"semi;colon", "", ".", "..", "eq=ual", "am&p", "at@", "co:lon", "%7Euser", "~user", "a%2fb", "%E4%B8%AD", "a%2Bb", "x%3Dy"}
+
+// segments whose decoded form contains a URL delimiter
+var c03Delims = []string{"q%3Fr", "p%25q", "a%23frag", "p%25", "%3F", "a%23", "100%25", "p%2541"}
 
 var c03Queries = []string{"", "", "a=1", "a=1&b=2", "x=%20y", "q=a+b", "k=%zz", "a=%3F%26", "a=1&a=2", "empty=", "noval", "u=%C3%A9", "a=b=c", "s=a/b?c", "?"}
 
@@ -385,8 +389,8 @@ func c03GenTarget(r *vfRand, adv bool) string {
 	var p strings.Builder
 	for i := 0; i < n; i++ {
 		p.WriteByte('/')
-		if adv && r.Chance(1, 2) {
-			p.WriteString(r.PickStr("a%2Fb", "q%3Fr", "p%25q", "a%23frag", "%41bc", "sp%20ace"))
+		if (adv && r.Chance(1, 2)) || r.Chance(1, 40) {
+			p.WriteString(c03Delims[r.Intn(len(c03Delims))])
 		} else {
 			p.WriteString(c03Segs[r.Intn(len(c03Segs))])
 		}
@@ -459,8 +463,16 @@ func c03Gen(r *vfRand, adv bool) (in c03In) {
 	in.Host = r.PickStr("front.test", "front.test:8080", "api.example.com", "[::1]:9", "10.0.0.7")
 	// end-to-end headers
 	k := r.Range(0, 6)
+	ua := false
 	for i := 0; i < k; i++ {
-		in.Headers = append(in.Headers, c03E2EReq[r.Intn(len(c03E2EReq))])
+		h := c03E2EReq[r.Intn(len(c03E2EReq))]
+		if h[0] == "User-Agent" { // net/http's transport writes a single User-Agent line
+			if ua {
+				continue
+			}
+			ua = true
+		}
+		in.Headers = append(in.Headers, h)
 	}
 	// hop-by-hop headers
 	k = r.Range(0, 3)
